@@ -328,8 +328,11 @@ func drawRepo(t *rapid.T, name string, deep bool, apiBundles, apiSplitUploads *i
 }
 
 func drawCase(t *rapid.T) caseT {
-	c := caseT{Profile: rapid.SampledFrom([]string{"mixed", "mixed", "deep"}).Draw(t, "profile")}
-	deep := c.Profile == "deep"
+	// profiles: mixed = all kinds, moderate sizes; deep = few diamonds whose splits have many file lists,
+	// many listings; wide = deep plus one diamond with 1100..2600 keys below it (several pages of 1024/2048)
+	c := caseT{Profile: rapid.SampledFrom([]string{"mixed", "mixed", "mixed", "mixed", "mixed", "deep", "deep", "wide"}).Draw(t, "profile")}
+	wide := c.Profile == "wide"
+	deep := c.Profile == "deep" || wide
 	max := maxObjects()
 	var all []string
 	if deep {
@@ -402,9 +405,51 @@ func drawCase(t *rapid.T) caseT {
 		c.Focus = append(c.Focus, drawRepo(t, n, deep, &apiBundles, &apiSplitUploads, &keyBudget))
 	}
 
+	if wide && len(c.Focus) > 0 {
+		r := &c.Focus[0]
+		target := rapid.IntRange(1100, 2600).Draw(t, "wide_keys")
+		if hx.Thorough() {
+			target = rapid.IntRange(1100, 6000).Draw(t, "wide_keys_t")
+		}
+		big := diamondT{Sec: rapid.IntRange(0, 6).Draw(t, "wide_sec"), Tag: 1000 + rapid.Uint64Range(0, 9).Draw(t, "wide_tag"),
+			Start: rapid.IntRange(0, 8).Draw(t, "wide_start"), Final: rapid.SampledFrom([]string{"", "canceled", "done"}).Draw(t, "wide_final"), How: "forged"}
+		for keys, i := 0, 0; keys < target; i++ {
+			k := rapid.IntRange(20, 60).Draw(t, "wide_idx")
+			s := splitT{ID: hx.KSUID(i%5, uint64(7*i)), Start: rapid.IntRange(0, 8).Draw(t, "wide_sstart"), Done: rapid.Bool().Draw(t, "wide_done"), How: "forged", Gens: []int{k}}
+			if i%4 == 3 {
+				s.ID = fmt.Sprintf("pod-%d", i)
+			}
+			big.Splits = append(big.Splits, s)
+			keys += k + 1
+			if s.Done {
+				keys++
+			}
+		}
+		for clash := true; clash; {
+			clash = false
+			for _, d := range r.Diamonds {
+				if d.id() == big.id() {
+					clash = true
+					big.Tag++
+				}
+			}
+		}
+		pos := rapid.IntRange(0, len(r.Diamonds)).Draw(t, "wide_pos")
+		r.Diamonds = append(r.Diamonds[:pos:pos], append([]diamondT{big}, r.Diamonds[pos:]...)...)
+		for _, b := range []int{1024, 2048, rapid.SampledFrom([]int{512, 1000, 1023, 1025, 2047}).Draw(t, "wide_b")} {
+			c.Lists = append(c.Lists,
+				listT{Kind: "diamonds", Batch: b, Conc: drawConc(t), Apply: rapid.Bool().Draw(t, "wide_apply")},
+				listT{Kind: "splits", Diamond: pos, Batch: b, Conc: drawConc(t), Apply: rapid.Bool().Draw(t, "wide_apply")})
+		}
+		c.Lists = append(c.Lists, listT{Kind: "diamonds", NoOpts: true}, listT{Kind: "splits", Diamond: pos, NoOpts: true})
+	}
+
 	// listings
 	add := func(l listT) {
 		l.Batch, l.Conc = drawBatch(t), drawConc(t)
+		if wide && l.Batch < 64 {
+			l.Batch *= 64 // thousands of keys: keep the number of pages (and the run time) moderate
+		}
 		l.Apply = rapid.Bool().Draw(t, "apply")
 		l.NoOpts = rapid.IntRange(0, 11).Draw(t, "noopts") == 0
 		c.Lists = append(c.Lists, l)
